@@ -472,8 +472,9 @@ class StopOrderMonitor:
                                                  'blocking_sequence': rv.procs[q]['stop_sequence'],
                                                  'blocking_state': str(st), 'on': j})
                             return
-        # applications in decreasing stop_sequence order (restart / shutdown / stop of everything)
-        if job_kind == 'ending':
+        # applications in decreasing stop_sequence order (restart / shutdown / stop of everything): only for the stops
+        # of the ending phase itself (a stop / restart of one application requested before is not concerned)
+        if job_kind == 'ending' and s.fsm.state.name in ('RESTARTING', 'SHUTTING_DOWN'):
             for bname, b in rv.apps.items():
                 if b['stop_sequence'] > app['stop_sequence']:
                     for q in b['procs']:
